@@ -5,11 +5,13 @@ package router
 // Verification hooks for C13 (add-only, tag "verif"): drive the REAL stream readers of a running router with a
 // connection object supplied by the harness, so that the segmentation each reader sees is exactly the one chosen:
 //   - gnetServer.OnOpen / OnTraffic / OnClose on a fake gnet.Conn (and a read-only view of the connCtx),
-//   - tcpServer.handleConn on any net.Conn (e.g. one end of net.Pipe).
+//   - tcpServer.handleConn on any net.Conn (e.g. one end of net.Pipe), plain or as a DoT server (temporary certificate).
 // Nothing here is compiled into a normal build.
 
 import (
+	"crypto/tls"
 	"net"
+	"sync"
 	"time"
 
 	"github.com/panjf2000/gnet/v2"
@@ -65,4 +67,38 @@ func (v *VerifRouter) VerifTcpHandleConn(c net.Conn, maxConcurrent int32, idle t
 	}
 	s.handleConn(c)
 	c.Close()
+}
+
+var (
+	verifC13TlsOnce sync.Once
+	verifC13Tls     *tls.Config
+	verifC13TlsErr  error
+)
+
+// VerifDotHandleConn is VerifTcpHandleConn for a DoT listener: the same tcpServer.handleConn with a TLS configuration
+// made by makeTlsConfig from `debug_use_temp_cert: true`.
+func (v *VerifRouter) VerifDotHandleConn(c net.Conn, maxConcurrent int32, idle time.Duration) error {
+	verifC13TlsOnce.Do(func() {
+		verifC13Tls, verifC13TlsErr = makeTlsConfig(&TlsConfig{DebugUseTempCert: true}, true)
+	})
+	if verifC13TlsErr != nil {
+		c.Close()
+		return verifC13TlsErr
+	}
+	if maxConcurrent <= 0 {
+		maxConcurrent = defaultMaxConcurrentRequestPreTCPConn
+	}
+	if idle <= 0 {
+		idle = defaultTCPIdleTimeout
+	}
+	s := &tcpServer{
+		r:             v.r,
+		logger:        v.r.subLoggerForServer("server_tcp", "verif-dot"),
+		tlsConfig:     verifC13Tls,
+		idleTimeout:   idle,
+		maxConcurrent: maxConcurrent,
+	}
+	s.handleConn(c)
+	c.Close()
+	return nil
 }
